@@ -275,6 +275,8 @@ class Engine:
                 avail.append((k, w))
             elif k == "remove_protected" and (objs or data):
                 avail.append((k, w))
+            elif k == "remove_partial" and data:
+                avail.append((k, w))
             elif k in ("recreate", "copy_back") and self.ws2 is not None:
                 avail.append((k, w))
             elif k == "copy_out" and self.ws2 is not None and (objs or grps):
@@ -613,6 +615,48 @@ class Engine:
                         del po.pgs[pgname]
         op["removed"] = victims
 
+    def op_remove_partial(self, op):
+        """Remove a container one of whose descendants is protected: the library refuses half-way with the documented
+        UserWarning.  Whatever it removed before refusing, the file must stay valid; the model follows the live view."""
+        conts = [n for n in self.model.of_kind("object", "group") if [c for c in self.model.subtree(n.uid)[1:] if self.model.nodes[c].dkind != "auto"]]
+        if not conts:
+            raise ExpectedRefusal("no container with children")
+        n = self.rng.choice(conts)
+        desc = self.rng.choice([c for c in self.model.subtree(n.uid)[1:] if self.model.nodes[c].dkind != "auto"])
+        dn = self.model.nodes[desc]
+        self.ent(desc).allow_delete = False
+        dn.flags["allow_delete"] = False
+        victims = self.model.subtree(n.uid)
+        op.update(cls=n.cls, target=n.uid, via="workspace", expect="refused", protected=desc)
+        fp = self.last_footprint
+        fp["delete"].update(path_of(self.model.nodes[v]) for v in victims)
+        fp["content"].update(path_of(self.model.nodes[v]) for v in victims)
+        fp["any_type"] = True
+        e = self.ent(n.uid)
+        for v in victims:
+            self.refs.pop(v, None)
+        try:
+            self.ws.remove_entity(e)
+            self.rec.fail(f"{self.prop}.protected-removal-accepted", op="remove_partial", cls=n.cls, attr="allow_delete", detail=f"container removed although its descendant {dn.cls} is protected")
+        except UserWarning as exc:
+            op["refused"] = str(exc)[:80]
+            self.rec.see("refused-removals")
+            self.rec.see("refused-container-removals")
+        del e
+        gone = [v for v in victims if self.ws.get_entity(uuid.UUID(v))[0] is None]
+        for v in gone:
+            vn = self.model.nodes.pop(v)
+            self.model.removed.add(v)
+            self.pending_victims.add(path_of(vn))
+            if vn.kind == "data" and vn.parent in self.model.nodes:
+                po = self.model.nodes[vn.parent]
+                for pgname in list(po.pgs):
+                    if v in po.pgs[pgname]:
+                        po.pgs[pgname].remove(v)
+                        if not po.pgs[pgname]:
+                            del po.pgs[pgname]
+        op["removed"] = gone
+
     def _pg_count(self, n):
         if n.kind != "data":
             return 0
@@ -848,6 +892,7 @@ DEFAULT_WEIGHTS = {
     "listing": 0.7,
     "dup_uid": 0.0,
     "remove_protected": 0.0,
+    "remove_partial": 0.0,
     "copy_out": 0.0,
 }
 
